@@ -11,6 +11,10 @@ CHECKS = {
    technique="reference-model monitor: real kvstore engines vs a map, full state comparison after every step; exhaustive short sequences + seeded random long ones; race detector/checkptr in the thorough tier",
    text="Every operation sequence over a 14-symbol alphabet up to length 4 (quick) / 5 (thorough), plus seeded random sequences of 100-2000 operations, is executed against two real storage engines; after every single step Get/GetRaw/GetTTL/GetKey/Check/Stats.Length/Range/RangeHKey/Scan (three page sizes)/ScanRegexMatch of both engines are compared with a reference map; compaction must finish within a step bound, table transfer must leave nothing behind. Held = no divergence on these executions.",
    note="Trusts the harness' own reference map and the put-if-newer merge it uses for the transfer peer; hkey collisions are not simulated; the storage engine is driven single-threaded, as the fragment lock guarantees in the real system."),
+ "C15": dict(category="exploration", design="DESIGN.md §3 C15",
+   technique="differential + model monitor over an exhaustive operation x option x prior-state x path grid, stored entry read white-box",
+   text="Every case of the grid {Put x {-,NX,XX} x {-,EX,PX,EXAT,PXAT}, Expire (s/ms), GetPut, Incr, Decr, IncrByFloat, Lock/Unlock/Lease, Lock on a busy key, multi-key Delete over 1-3 owners} x prior states is executed through each of the six entry paths (embedded owner / non-owner, cluster client, raw RESP owner / non-owner, pipeline) with ReplicaCount 1 and 2, each on a fresh key; the outcome tuple (error class, returned value/count, stored value, expiry class read white-box on the owner) must equal a small model of the documented semantics and be the same on every path.",
+   note="Expiry classes use a 3 ms tolerance around [call+d, return+d]; behaviour the statement does not define (Incr on a non-integer, IncrByFloat and expiry) is compared across paths only. One cluster size (3 members, 7 partitions)."),
 }
 
 NOT_BUILT_REASON = "check not built yet (work in progress in this session); not claimed until its monitor is silent on the unchanged tree"
